@@ -153,9 +153,10 @@ func (p Proxy) ServeHTTP(w http.ResponseWriter, r *http.Request) (int, error) {
 	// starts from the original request, not from the previous attempt's result.
 	origURL, origHeader := *outreq.URL, outreq.Header
 
-	// If we have more than one upstream host defined and if retrying is enabled
-	// by setting try_duration to a non-zero value, casket will try to
-	// retry the request at a different host if the first one failed.
+	// If retrying is enabled by setting try_duration to a non-zero value,
+	// casket will try to retry the request at a different host if the first
+	// one failed (or at the same host again, if it is the only one and
+	// max_fails / fail_timeout leave it available).
 	//
 	// This requires us to possibly rewind and replay the request body though,
 	// which in turn requires us to buffer the request body first.
@@ -163,7 +164,7 @@ func (p Proxy) ServeHTTP(w http.ResponseWriter, r *http.Request) (int, error) {
 	// An unbuffered request is usually preferrable, because it reduces latency
 	// as well as memory usage. Furthermore it enables different kinds of
 	// HTTP streaming applications like gRPC for instance.
-	requiresBuffering := upstream.GetHostCount() > 1 && upstream.GetTryDuration() != 0
+	requiresBuffering := upstream.GetTryDuration() != 0
 
 	if requiresBuffering {
 		body, err := newBufferedBody(outreq.Body)
